@@ -22,9 +22,13 @@ NARROW = {"int8", "int16", "int32", "uint8", "uint16", "uint32"}
 INTS = NARROW | {"int64", "uint", "uint64"}
 
 
-def finding_class(row, binding):
+def finding_class(row, binding, obs=None):
     """call-site classes of the known findings (known_findings.json, property C10)"""
     e, t = row["expr"], row["ftype"]
+    if obs == "panic" and re.search(r"[/%]", e):
+        return "cel-division-by-zero"
+    if obs == "panic" and "matches(" in e and not re.search(r"matches\('", e):
+        return "cel-matches-field-pattern"
     if "size(" in e and re.search(r"[^\x00-\x7f]", binding):
         return "size-of-string-counts-bytes"
     if t in NARROW and re.search(r"[+\-*]", e):
@@ -61,6 +65,37 @@ def ctx_check(res):
         r = bad[0]
         res.violation("ctx-cel", {"kind": "ctx-cel", "what": "ValidateContext with an already cancelled context returned %s instead of context.Canceled" % r.get("ctx"),
                                   "type": r["ftype"], "expression": r["expr"], "extra_markers": r.get("extra", ""), "source": r.get("source", ""), "count": len(bad)}, True)
+        return False
+    return True
+
+
+def panic_check(res):
+    """C17 on CEL-bearing structs: division / modulo by zero fields, matches() with a field that is not a regular
+    expression, indexing, conversions — the compiled Validate() must return normally on every binding."""
+    rows = [r for r in harness_rows(res.tier, res.seed) if "id" in r]
+    known = {k.get("match", {}).get("class"): k for k in C.load_known().get("findings", []) if k.get("property") == res.pid}
+    n, unlisted = 0, []
+    for r in rows:
+        for obs, v in zip(r.get("obs") or [], r.get("values") or []):
+            n += 1
+            if obs != "panic":
+                continue
+            cls = None
+            if re.search(r"[/%]", r["expr"]):
+                cls = "cel-division-by-zero"
+            elif "matches(" in r["expr"] and not re.search(r"matches\('", r["expr"]):
+                cls = "cel-matches-field-pattern"
+            if cls in known:
+                if known[cls]["what"] not in res.known:
+                    res.known.append(known[cls]["what"])
+            else:
+                unlisted.append((r, v))
+    res.cov["evaluations"] += n
+    res.cov["distribution"]["cel-bindings-under-recover"] = n
+    if unlisted:
+        r, v = unlisted[0]
+        res.violation("cel-panic", {"kind": "cel", "type": r["ftype"], "expression": r["expr"], "binding": v, "what": "the generated Validate() panics",
+                                    "emitted_condition": r.get("cond", ""), "source": r.get("source", ""), "count": len(unlisted)}, True)
         return False
     return True
 
@@ -148,7 +183,7 @@ def run(res):
             if obs != want:
                 bad = True
                 concrete.append((r, v, "reference CEL = %s but the generated check %s" % (
-                    ref, {"ok": "does not report the CEL error", "cel": "reports the CEL error", "panic": "panics"}.get(obs, obs)), finding_class(r, v)))
+                    ref, {"ok": "does not report the CEL error", "cel": "reports the CEL error", "panic": "panics"}.get(obs, obs)), finding_class(r, v, obs)))
         bump("outcome:" + ("disagrees" if bad else "agrees"))
     res.cov["evaluations"] = evaluations
     res.cov["distinct_nontrivial"] = len(nontrivial)
